@@ -15,10 +15,19 @@
    wsum, wmean w A (row of weighted column means), rows_of k r (k copies of the row r);
    kn_effw cfg w = w, or all ones when no weights are given; kn_wok cfg w = these weights
    have a non-zero sum.  All theorems: any real closed field, any n, p, k, m, any such
-   weights (non-negative or not), every flag combination unless a flag is a hypothesis. *)
+   weights (non-negative or not), every flag combination unless a flag is a hypothesis.
+
+   Extension (second half of the file):
+   Model/KernelCut.v + KernelCutMx.v — the cut-off of np.linalg.pinv(Kmm, rcond) as a program:
+     pc_P_mx t U v = the program [pc_P] on the spectral data Kmm = U diag(v) U^T with the
+     cut-off t on |eigenvalue| (numpy: t = rcond * max|v|; [is_vmax x v]: x is that maximum);
+   Model/KernelObj.v — both classes as objects with a history (attributes assigned / read by
+     each method, rejection branches, set_params, re-fit), parametric in the numerics:
+     kn_run / sk_run o ops = (final object, result of every call). *)
 From Coq Require Import PrimFloat.
 From mathcomp Require Import all_ssreflect all_algebra.
 From Verif Require Import MExp MExpMx MxBox ScalerMx KernelNorm KernelNormMx KernelNormP.
+From Verif Require Import ScalerP KernelCut KernelCutMx KernelCutP KernelObj KernelObjP.
 Set Implicit Arguments.
 Unset Strict Implicit.
 Unset Printing Implicit Defensive.
@@ -196,3 +205,248 @@ Example C12_nonvacuous_float :
   /\ kn_fit_transform_f (KnCfg true true false) 2 K nil
      = cons (cons 1%float (cons (-1)%float nil)) (cons (cons (-1)%float (cons 1%float nil)) nil).
 Proof. split; vm_compute; reflexivity. Qed.
+
+(* ============================ extension ============================ *)
+
+(* ---- the sparse class: flags and the test block ------------------------------------------- *)
+
+(* with_center=False (sparse): no means are stored, scale_ comes from the uncentred Nystrom
+   trace, transform only divides by scale_ *)
+Theorem C12_sparse_flags_no_center :
+  forall (F : rcfType) (cfg : kn_cfg) (n m : nat) (w : 'cV[F]_n)
+         (Knm : 'M[F]_(n, m)) (Kmm P : 'M[F]_(m, m)),
+    kn_wok cfg w -> ~~ kn_center cfg ->
+    let st := sk_fit_mx cfg Knm w Kmm P in
+    [/\ st.1 = 0,
+        st.2 = (if kn_trace cfg then (Num.sqrt (\tr (Knm *m P *m Knm^T) / n%:R))%:M else 1%:M)
+      & forall k (Kt : 'M[F]_(k, m)), sk_transform_mx st Kt = (st.2 ord0 ord0)^-1 *: Kt].
+Proof. exact sk_no_center. Qed.
+Print Assumptions C12_sparse_flags_no_center.
+
+(* with_trace=False (sparse): same stored means, scale_ = 1, output = with_trace output times
+   its scale *)
+Theorem C12_sparse_flags_no_trace :
+  forall (F : rcfType) (c h : bool) (n m : nat) (w : 'cV[F]_n)
+         (Knm : 'M[F]_(n, m)) (Kmm P : 'M[F]_(m, m)),
+    let cfg1 := KnCfg c true h in
+    let cfg0 := KnCfg c false h in
+    kn_wok cfg1 w ->
+    let st1 := sk_fit_mx cfg1 Knm w Kmm P in
+    let st0 := sk_fit_mx cfg0 Knm w Kmm P in
+    [/\ st0.1 = st1.1, st0.2 = 1%:M
+      & st1.2 ord0 ord0 != 0 ->
+        forall k (Kt : 'M[F]_(k, m)),
+          sk_transform_mx st0 Kt = st1.2 ord0 ord0 *: sk_transform_mx st1 Kt].
+Proof. exact sk_trace_only_scales. Qed.
+Print Assumptions C12_sparse_flags_no_trace.
+
+(* any (test) block is transformed with the weighted column means of the TRAINING block and
+   the one common scale *)
+Theorem C12_sparse_test_block :
+  forall (F : rcfType) (cfg : kn_cfg) (n m : nat) (w : 'cV[F]_n)
+         (Knm : 'M[F]_(n, m)) (Kmm P : 'M[F]_(m, m)),
+    kn_wok cfg w ->
+    forall k (Kt : 'M[F]_(k, m)),
+    let st := sk_fit_mx cfg Knm w Kmm P in
+    sk_transform_mx st Kt
+    = (st.2 ord0 ord0)^-1 *: (Kt - rows_of k (if kn_center cfg then wmean (kn_effw cfg w) Knm else 0)).
+Proof. exact sk_test_block. Qed.
+Print Assumptions C12_sparse_test_block.
+
+(* ---- sample weights: only their direction matters --------------------------------------------- *)
+
+(* a common non-zero factor a on the sample weights (units, Boltzmann prefactors, 2^-60 ...)
+   changes nothing: the weights stay usable, fit of both classes stores the same attributes and
+   transform of KernelNormalizer (which reads the stored weights) returns the same matrix *)
+Theorem C12_weight_scale_invariant :
+  forall (F : rcfType) (cfg : kn_cfg) (n : nat) (w : 'cV[F]_n) (a : F),
+    a != 0 -> kn_wok cfg w ->
+    [/\ kn_wok cfg (a *: w),
+        forall K : 'M[F]_(n, n), kn_fit_mx cfg K (a *: w) = kn_fit_mx cfg K w,
+        forall k (st : kn_st F n) (Kt : 'M[F]_(k, n)),
+          kn_transform_mx cfg (a *: w) st Kt = kn_transform_mx cfg w st Kt
+      & forall m (Knm : 'M[F]_(n, m)) (Kmm P : 'M[F]_m),
+          sk_fit_mx cfg Knm (a *: w) Kmm P = sk_fit_mx cfg Knm w Kmm P].
+Proof. exact weight_scale_invariant. Qed.
+Print Assumptions C12_weight_scale_invariant.
+
+(* non-vacuity: given weights (1, 1) are usable and 2 is a non-zero factor, in every field *)
+Example C12_weight_scale_nonvacuous :
+  forall F : rcfType,
+    kn_wok (KnCfg true true true) (const_mx 1 : 'cV[F]_2) /\ (2%:R : F) != 0.
+Proof. by move=> F; rewrite /kn_wok /kn_effw /= wsum_ones pnatr_eq0. Qed.
+
+(* ---- the cut-off of pinv(Kmm, rcond) inside the model ----------------------------------------- *)
+
+(* the program computes U diag(f) U^T, f_j = 1/v_j above the cut-off and 0 below, and this is
+   the Moore-Penrose pseudo-inverse of the matrix truncated at the cut-off *)
+Theorem C12_pinv_cutoff_program :
+  forall (F : rcfType) (m : nat) (t : F) (U : 'M[F]_m) (v : 'rV[F]_m),
+    0 <= t ->
+    pc_P_mx t U v = U *m diag_mx (cut_inv t v) *m U^T
+    /\ (U^T *m U = 1%:M -> penrose (U *m diag_mx (cut_keep t v) *m U^T) (pc_P_mx t U v)).
+Proof. by move=> F m t U v t0; split; [exact: pc_P_mxE | exact: pinv_cut_penrose]. Qed.
+Print Assumptions C12_pinv_cutoff_program.
+
+(* ... hence THE pseudo-inverse of Kmm (the oracle hypothesis of C12_sparse_feature_space is
+   met by the model's own pinv) whenever no non-zero eigenvalue is discarded *)
+Theorem C12_pinv_cutoff_penrose :
+  forall (F : rcfType) (m : nat) (t : F) (K U : 'M[F]_m) (v : 'rV[F]_m),
+    0 <= t -> spectral K U v ->
+    (forall j, v ord0 j != 0 -> t < `|v ord0 j|) ->
+    penrose K (pc_P_mx t U v).
+Proof. exact pinv_cut_penrose_full. Qed.
+Print Assumptions C12_pinv_cutoff_penrose.
+
+(* the cut-off is RELATIVE (rcond * largest |eigenvalue|): multiplying Kmm by c > 0 divides
+   the pseudo-inverse by c — no eigenvalue changes side *)
+Theorem C12_pinv_cutoff_homogeneous :
+  forall (F : rcfType) (m : nat) (c rc x : F) (U : 'M[F]_m) (v : 'rV[F]_m),
+    0 < c -> 0 <= rc -> is_vmax x v ->
+    is_vmax (c * x) (c *: v)
+    /\ pc_P_mx (rc * (c * x)) U (c *: v) = c^-1 *: pc_P_mx (rc * x) U v.
+Proof.
+  by move=> F m c rc x U v c0 rc0 vm; split; [exact: is_vmax_scale | exact: pinv_cut_homog].
+Qed.
+Print Assumptions C12_pinv_cutoff_homogeneous.
+
+(* ... so the result of SparseKernelCenterer does not depend on the magnitude of the kernels:
+   kernels multiplied by c > 0 (features by sqrt c) give means times c, scale_ times sqrt c,
+   transformed blocks times sqrt c (times c without trace scaling), and the SAME centred
+   Nystrom kernel of the transformed training block *)
+Theorem C12_sparse_magnitude_invariant :
+  forall (F : rcfType) (cfg : kn_cfg) (n m : nat) (w : 'cV[F]_n)
+         (Knm : 'M[F]_(n, m)) (Kmm U : 'M[F]_m) (v : 'rV[F]_m) (rc x c : F),
+    kn_wok cfg w -> 0 < c -> 0 <= rc -> is_vmax x v ->
+    let P := pc_P_mx (rc * x) U v in
+    let P' := pc_P_mx (rc * (c * x)) U (c *: v) in
+    let st := sk_fit_mx cfg Knm w Kmm P in
+    let st' := sk_fit_mx cfg (c *: Knm) w (c *: Kmm) P' in
+    let f := if kn_trace cfg then Num.sqrt c else 1 in
+    [/\ P' = c^-1 *: P,
+        st'.1 = c *: st.1 /\ st'.2 = f *: st.2,
+        st.2 ord0 ord0 != 0 ->
+        forall k (Kt : 'M[F]_(k, m)),
+          sk_transform_mx st' (c *: Kt)
+          = (if kn_trace cfg then Num.sqrt c else c) *: sk_transform_mx st Kt
+      & kn_trace cfg -> st.2 ord0 ord0 != 0 ->
+        let T := sk_transform_mx st Knm in
+        let T' := sk_transform_mx st' (c *: Knm) in
+        T' *m P' *m T'^T = T *m P *m T^T].
+Proof. exact sk_magnitude_invariant. Qed.
+Print Assumptions C12_sparse_magnitude_invariant.
+
+(* non-vacuity: Kmm = diag(4, 0), U = 1, any 0 <= rcond < 1 *)
+Example C12_cutoff_nonvacuous :
+  forall (F : rcfType) (rc : F),
+    0 <= rc -> rc < 1 ->
+    let v : 'rV[F]_2 := \row_j (if j == ord0 then 4%:R else 0) in
+    [/\ is_vmax 4%:R v, spectral (diag_mx v) 1%:M v,
+        (forall j, v ord0 j != 0 -> rc * 4%:R < `|v ord0 j|)
+      & pc_P_mx (rc * 4%:R) 1%:M v = diag_mx (\row_j (if j == ord0 then 4%:R^-1 else 0))].
+Proof. exact cut_nonvacuous. Qed.
+
+(* ---- the estimators as objects: histories ------------------------------------------------------ *)
+
+(* KernelNormalizer: after ANY history h, a successful fit leaves the object — and therefore the
+   result of every later call — exactly as a NEW estimator with the flags currently in force would
+   be after the same fit.  For every interpretation of the numerics (T, norm_w, fit_num, tr_num). *)
+Theorem C12_refit_is_fresh_fit :
+  forall (T : Type) (nrows ncols : T -> nat) (norm_w : T -> T)
+         (fit_num : bool -> bool -> T -> option T -> T * T * T)
+         (tr_num : bool -> option T -> T -> T -> T -> T -> T)
+         (h tail : list (kn_op T)) (o0 : kn_obj T) (K : T) (w : option T),
+    kn_w_ok T nrows K w = true ->
+    let o := fst (kn_run T nrows ncols norm_w fit_num tr_num o0 h) in
+    kn_run T nrows ncols norm_w fit_num tr_num o (OFit K w :: tail)
+    = kn_run T nrows ncols norm_w fit_num tr_num (kn_new T (o_center T o) (o_trace T o)) (OFit K w :: tail).
+Proof. exact kn_history_irrelevant. Qed.
+Print Assumptions C12_refit_is_fresh_fit.
+
+(* a rejected fit (weights of the wrong length: ValueError) leaves fitted attributes and flags
+   as they were; transform never changes the object; an estimator without fitted attributes
+   rejects transform *)
+Theorem C12_rejected_calls :
+  forall (T : Type) (nrows ncols : T -> nat) (norm_w : T -> T)
+         (fit_num : bool -> bool -> T -> option T -> T * T * T)
+         (tr_num : bool -> option T -> T -> T -> T -> T -> T) (o : kn_obj T) (K : T) (w : option T),
+    (kn_w_ok T nrows K w = false ->
+     let (o1, r) := kn_do_fit T nrows ncols norm_w fit_num o K w in
+     r = RRaise /\ o_attrs T o1 = o_attrs T o /\ o_center T o1 = o_center T o /\ o_trace T o1 = o_trace T o)
+    /\ fst (kn_do_transform T nrows ncols tr_num o K) = o
+    /\ (o_attrs T o = None -> snd (kn_do_transform T nrows ncols tr_num o K) = RRaise).
+Proof.
+  move=> T nrows ncols norm_w fit_num tr_num o K w; split; first exact: kn_rejected_fit.
+  by split; [exact: kn_transform_pure | exact: kn_unfitted_raises].
+Qed.
+Print Assumptions C12_rejected_calls.
+
+(* fit_transform is fit followed by transform of the same kernel, as a statement about the
+   object: same final object, same returned value *)
+Theorem C12_obj_fit_transform :
+  forall (T : Type) (nrows ncols : T -> nat) (norm_w : T -> T)
+         (fit_num : bool -> bool -> T -> option T -> T * T * T)
+         (tr_num : bool -> option T -> T -> T -> T -> T -> T) (o : kn_obj T) (K : T) (w : option T),
+    kn_w_ok T nrows K w = true ->
+    let (o2, rs) := kn_run T nrows ncols norm_w fit_num tr_num o (cons (OFit K w) (cons (OTransform K) nil)) in
+    kn_run T nrows ncols norm_w fit_num tr_num o (cons (OFitTransform K w) nil)
+    = (o2, cons (List.last rs RDone) nil).
+Proof. exact kn_fit_transform_steps. Qed.
+Print Assumptions C12_obj_fit_transform.
+
+(* SparseKernelCenterer: the same three statements (re-fit = fresh fit with the flags and rcond
+   in force; the three shape checks precede every assignment, so a rejected fit changes nothing;
+   fit_transform = fit then transform), and transform accepts exactly the kernels with
+   n_active_ columns of the LAST fit *)
+Theorem C12_sparse_refit_is_fresh_fit :
+  forall (T C H : Type) (nrows ncols : T -> nat)
+         (sfit_num : bool -> bool -> C -> T -> T -> H -> option T -> T * T) (str_num : T -> T -> T -> T)
+         (hist tail : list (sk_op T C H)) (o0 : sk_obj T C) (Knm Kmm : T) (h : H) (w : option T),
+    sk_fit_ok T nrows ncols Knm Kmm w = true ->
+    let o := fst (sk_run T C nrows ncols H sfit_num str_num o0 hist) in
+    sk_run T C nrows ncols H sfit_num str_num o (SFit Knm Kmm h w :: tail)
+    = sk_run T C nrows ncols H sfit_num str_num
+             (sk_new T C (so_center T C o) (so_trace T C o) (so_rcond T C o)) (SFit Knm Kmm h w :: tail).
+Proof. exact sk_history_irrelevant. Qed.
+Print Assumptions C12_sparse_refit_is_fresh_fit.
+
+Theorem C12_sparse_rejected_calls :
+  forall (T C H : Type) (nrows ncols : T -> nat)
+         (sfit_num : bool -> bool -> C -> T -> T -> H -> option T -> T * T) (str_num : T -> T -> T -> T)
+         (o : sk_obj T C) (Knm Kmm Kt : T) (h : H) (w : option T),
+    (sk_fit_ok T nrows ncols Knm Kmm w = false ->
+     sk_do_fit T C nrows ncols H sfit_num o Knm Kmm h w = (o, RRaise))
+    /\ fst (sk_do_transform T C ncols str_num o Kt) = o
+    /\ (forall a, so_attrs T C o = Some a ->
+        snd (sk_do_transform T C ncols str_num o Kt)
+        = if Nat.eqb (ncols Kt) (s_nact T a) then ROut (str_num (s_rows T a) (s_scale T a) Kt) else RRaise)
+    /\ (sk_fit_ok T nrows ncols Knm Kmm w = true ->
+        let (o2, rs) := sk_run T C nrows ncols H sfit_num str_num o
+                               (cons (SFit Knm Kmm h w) (cons (STransform Knm) nil)) in
+        sk_run T C nrows ncols H sfit_num str_num o (cons (SFitTransform Knm Kmm h w) nil)
+        = (o2, cons (List.last rs RDone) nil)).
+Proof.
+  move=> T C H nrows ncols sfit_num str_num o Knm Kmm Kt h w.
+  split; first exact: sk_rejected_fit.
+  split; first exact: sk_transform_pure.
+  by split; [move=> a; exact: sk_transform_accepts | exact: sk_fit_transform_steps].
+Qed.
+Print Assumptions C12_sparse_rejected_calls.
+
+(* non-vacuity, on the binary64 instantiation the check runs: one KernelNormalizer object fitted
+   with weights (1, 3) on K1, then re-fitted WITHOUT weights on K2 = [[0,0],[0,4]]; the re-fit
+   is accepted, the object equals a freshly fitted one, and transform(K2) is the matrix of
+   C12_nonvacuous_float *)
+Example C12_history_nonvacuous_float :
+  let K1 := cons (cons 1%float (cons 2%float nil)) (cons (cons 2%float (cons 5%float nil)) nil) in
+  let K2 := cons (cons 0%float (cons 0%float nil)) (cons (cons 0%float (cons 4%float nil)) nil) in
+  let w := cons (cons 1%float nil) (cons (cons 3%float nil) nil) in
+  let run := kn_run fmat f_nrows f_ncols f_norm_w f_fit_num f_tr_num in
+  kn_w_ok fmat f_nrows K2 None = true
+  /\ fst (run (kn_new fmat true true) (cons (fOFit K1 (Some w)) (cons (fOFit K2 wNone) nil)))
+     = fst (run (kn_new fmat true true) (cons (fOFit K2 wNone) nil))
+  /\ snd (run (kn_new fmat true true)
+               (cons (fOFit K1 (Some w)) (cons (fOFit K2 wNone) (cons (fOTransform K2) nil))))
+     = cons RDone (cons RDone (cons (ROut
+         (cons (cons 1%float (cons (-1)%float nil)) (cons (cons (-1)%float (cons 1%float nil)) nil))) nil)).
+Proof. by split; [|split]; vm_compute. Qed.
